@@ -1,4 +1,5 @@
 import Pocket.Lemmas.StoreRead
+import Pocket.Lemmas.Layout
 /-
 C04 — stored events read back byte-identical, forever.
 `Inv` (Lemmas/StoreInv) holds in every state reachable from the empty store by any history
@@ -45,6 +46,48 @@ theorem new_offset_fresh (s : Store) (hi : Inv s) (e : EventRec) (off : Nat)
   have := eventLen_pos x.e
   have := align8_ge s.end
   omega
+
+/-- **delineation on read ignores whatever follows the event in the map**: the slice handed to
+`Event::delineate` is the stored bytes followed by ANY amount of later data (no bound: 4 GiB and
+more); the event it cuts out is exactly the stored bytes -/
+theorem delineate_ignores_what_follows (e : EventRec) (hs : EventSized e) (rest : Bytes) :
+    eventDelineate (encodeEvent e ++ rest) = .ok (encodeEvent e) := by
+  have hlen : (encodeEvent e).length = eventSize (tagsSize e.tags) e.content.length := by
+    unfold encodeEvent
+    rw [encodeEventWith_length _ _ _ _ _ _ _ hs.id hs.pk hs.sig, encodeTags_length]
+  have hc := hs.content
+  have hge : 152 ≤ eventSize (tagsSize e.tags) e.content.length := by unfold eventSize tagsSize; omega
+  have hrd : rd32 (encodeEvent e ++ rest) 0 = .ok (eventSize (tagsSize e.tags) e.content.length) := by
+    have := rd32_of_drop (encodeEvent e ++ rest) 0 (eventSize (tagsSize e.tags) e.content.length)
+      (le16 e.kind ++ [0, 0] ++ le64 e.createdAt ++ e.id ++ e.pubkey ++ e.sig ++ encodeTags e.tags ++
+        le32 e.content.length ++ e.content ++ rest)
+      (by simp [encodeEvent, encodeEventWith, encodeTags_length])
+    rw [this]; congr 1; omega
+  unfold eventDelineate
+  rw [if_neg (by simp only [List.length_append]; omega), hrd]
+  simp only []
+  rw [if_neg (by simp only [List.length_append]; omega), ← hlen, List.take_left' rfl]
+
+/-- … stated on lengths: for every number of bytes that follow, the length `delineate` reports is
+the event's own -/
+theorem delineate_length_any_total (e : EventRec) (hs : EventSized e) (total : Nat)
+    (ht : (encodeEvent e).length ≤ total) :
+    eventDelineateLen (encodeEvent e) total = .ok (encodeEvent e).length := by
+  have hlen : (encodeEvent e).length = eventSize (tagsSize e.tags) e.content.length := by
+    unfold encodeEvent
+    rw [encodeEventWith_length _ _ _ _ _ _ _ hs.id hs.pk hs.sig, encodeTags_length]
+  have hc := hs.content
+  have hge : 152 ≤ eventSize (tagsSize e.tags) e.content.length := by unfold eventSize tagsSize; omega
+  have hrd : rd32 (encodeEvent e) 0 = .ok (eventSize (tagsSize e.tags) e.content.length) := by
+    have := rd32_of_drop (encodeEvent e) 0 (eventSize (tagsSize e.tags) e.content.length)
+      (le16 e.kind ++ [0, 0] ++ le64 e.createdAt ++ e.id ++ e.pubkey ++ e.sig ++ encodeTags e.tags ++
+        le32 e.content.length ++ e.content)
+      (by simp [encodeEvent, encodeEventWith, encodeTags_length])
+    rw [this]; congr 1; omega
+  unfold eventDelineateLen
+  rw [if_neg (by omega), hrd]
+  simp only []
+  rw [if_neg (by omega), hlen]
 
 /-- closing and reopening changes nothing -/
 theorem reopen_reads (s : Store) : step s .reopen = s := rfl
